@@ -403,7 +403,9 @@ META = {
              "posix_spawn result and every order and status of wait() results is an input: whenever some stage of a "
              "pipeline cannot be started or is reaped with a non-zero status, in any order, the driver exits 1, never "
              "spawns the linker, removes that pipeline's output and all temporaries, has reaped every child, and has "
-             "sent SIGTERM exactly once to every child still outstanding at the first failure; with a fair schedule it "
+             "sent SIGTERM exactly once to every child still outstanding at the first failure - wherever on the command "
+             "line the failing pipeline is and however many fail (any_failure_fails) - and under fair schedules the exit "
+             "status is 0 iff no tool failed and the linker (if any) succeeded, 1 otherwise (exit_zero_iff); with a fair schedule it "
              "never waits for ever; if the link step fails or cannot be spawned it exits 1 with no temporary left; if "
              "everything succeeds it exits 0 with outputs in place and no temporary left; after the spawn loop each "
              "pipe's write end is held by its upstream stage only and tools see descriptors 0,1,2 only.  Tied to /repo "
